@@ -121,8 +121,8 @@ def rule_diff(ctx):
                 ok = False
                 continue
             el = ('elem', ('attr', OBJ, 'axes'), newaxes[3][0][0])
-            cond, a_then, a_else = newaxes[2][1], newaxes[2][2], newaxes[2][3]
-            if cond != T.mkcmp('!=', ('attr', el, 'name'), NAME) or a_then != ('call', ('attr', el, 'copy'), (), ()):
+            cond, a_else, a_then = newaxes[2][1], newaxes[2][2], newaxes[2][3]        # canonical: ifexp(name == NAME, replaced axis, copy of the other)
+            if cond != T.mkcmp('==', ('attr', el, 'name'), NAME) or a_then != ('call', ('attr', el, 'copy'), (), ()):
                 ctx.violated('R2', fi, 'newaxes = ' + T.show(newaxes)[:140], 'the replaced axis is selected by the name of the same resolution; the others are copies', node=p.node)
                 ok = False
                 continue
